@@ -1,30 +1,38 @@
 """C12 — typed responses are serialised faithfully with their declared status."""
 import re
 
-from .lib import (ITER_PLUMBING, PLUMBING, borrow_root, callee_allow, callers, closure_args_of_call, const_int, element_sources, operand_local)
-from .lib_c12 import (STATUS_PATH, TO_STRING, Origin, accept_edges, agg_field_op, coded_impls, const_val, from_impls, norm_ty, op_const_path,
-                      only_plumbing, ret_ok_sites, self_of_call)
+from .lib import PLUMBING, borrow_root, callee_allow, callers, closure_args_of_call, operand_local
+from .lib_c01 import VALUE_PRESERVING, sources
+from .lib_c12 import (STATUS_PATH, TO_STRING, CheckOutcome, Origin, agg_field_op, coded_impls, const_val, def_site, field_place, from_impls, norm_ty,
+                      op_const_path, only_plumbing, result_payload_sources, ret_ok_sites, self_of_call, trace_value)
 
 LEVEL = "other"
 TECHNIQUE = ("static analysis: evaluated associated constants (status table), MIR slices from Builder::status/header/body operands, "
-             "reachability order of HeaderMap::insert vs extend (insert sites in the function or in iterator-adaptor closures, resolved through captures), guarding of the redirect "
-             "construction site by the Location validation (Ok edge dominance, or an Ok-only combinator closure)")
+             "reachability order of HeaderMap::insert vs extend (insert sites in the function or in iterator-adaptor closures, resolved through captures), "
+             "variant-sensitive value tracing on the normalised MIR view (sources of the Ok / Err payload of the redirect constructors; name / value of a declared header traced "
+             "through conversions, closures and iterator pipelines to the key / value of an element of to_map's result), "
+             "path knowledge about the outcome of the Location validation (fixed point over switches on the validation result and values re-wrapping it, is_ok/is_err facts)")
 LEVEL_TEXT = ("Decides on the type-checked MIR of the current tree: (R1) the evaluated STATUS_CODE of every HttpCodedResponse impl equals the specified table "
               "(200/201/202/204/204/302/303/307) and the body type is Empty exactly for the 204/3xx kinds; (R2) for_object gives Self::STATUS_CODE to Builder::status and "
               "hands the untouched body and that builder to Body::to_response, no impl overrides it, and every `From<X> for HttpHandlerResult` calls for_object of its own X "
               "with the wrapped value; (R3) the JSON to_response serialises `self` with serde_json, sets CONTENT_TYPE to the constant whose value is application/json on the "
               "builder it was given (no second status/header) and returns that response; (R4) Empty::to_response uses Body::empty() and sets no header; "
-              "(R5) in HttpResponseHeaders::to_result every declared header (from to_map(&structured_headers)) is inserted before — never after — extend(other_headers), on the "
-              "response produced from `body`, and every Ok return has passed the extend; (R6) each redirect constructor validates HeaderValue::from_str(&location) and builds its response (HttpResponseHeaders::new) only where that "
-              "validation succeeded — on the Ok edge of the check (`?`, match, if-let, a validation helper) or inside the closure of Result::map / and_then applied to the check — "
-              "the failure edge returns an error, the status type has the right evaluated code and Location is the argument; (R7) to_map stores "
+              "(R5) in HttpResponseHeaders::to_result every declared header is inserted before — never after — extend(other_headers), on the response produced from `body`, every Ok return "
+              "has passed the extend, and the inserted name / value are the typed conversions of the key / value of one element of the map returned by to_map(&structured_headers) "
+              "(whether written as a loop, an adaptor closure, a conversion helper or a collect-then-insert pipeline); (R6) for each redirect constructor, on the normalised view: every "
+              "source of the Ok payload of its return value is an HttpResponseHeaders built (new / struct literal with an empty explicit header map) only where "
+              "HeaderValue::from_str(&location) is known to have returned Ok, whose RedirectHeaders.location is the argument unmodified and whose status type (from the return type) has the "
+              "right evaluated code; every source of the Err payload is an HttpError constructor called only where the validation is known to have failed and given that validation's error; "
+              "HttpResponseHeaders::new stores the given headers and an empty explicit map; the header is named `location`; (R7) to_map stores "
               "key and string value unmodified. Not decided: that serde_json's output parses back to the same value; http::HeaderMap::{insert,extend} semantics.")
-LEVEL_NOTE = ("Trusts rustc MIR construction + const evaluation, the fact extractor, serde_json::to_string, http::response::Builder, HeaderMap::insert/extend "
-              "(extend replaces an existing name on its first occurrence), HeaderValue::from_str.")
+LEVEL_NOTE = ("Trusts rustc MIR construction + const evaluation, the fact extractor, the engine's normalisation (helper inlining, combinator desugaring, jump threading), serde_json::to_string, "
+              "http::response::Builder, HeaderMap::insert/extend (extend replaces an existing name on its first occurrence), HeaderValue::from_str.")
 EXPLANATION = ("CONST table over ctx.ds.const_list joined with the impl table; CHAIN slices of the operands of Builder::status / header / body and BTreeMap::insert with "
-               "short allow-lists; ORDER by CFG reachability between HeaderMap::insert sites and Extend::extend; DOM by edge dominance of the Ok/Continue edge of the switch on the "
-               "validation result over the construction site HttpResponseHeaders::new (or its placement in a Result::map / and_then closure of that result); closure-transparent origins "
-               "(captures resolved in the enclosing function) for header name / value / map; SIBLINGS over the three redirect constructors and the eight From impls.")
+               "short allow-lists; ORDER by CFG reachability between HeaderMap::insert sites and Extend::extend; R6 by DATA FLOW on the normalised view: lib_c01.sources of `(_0 as Ok).0` / "
+               "`(_0 as Err).0` (through inlined helpers, match arms, `?` residuals), each Ok source checked against lib_c12.CheckOutcome (edges on which the validation is known Ok / Err, "
+               "computed as a fixed point so that neither the number nor the position of matches matters; is_ok()/is_err() via path-sensitive bool facts), the Location field traced to the "
+               "parameter; R5 name / value by lib_c12.trace_value (variant-, field-, closure- and iterator-pipeline-sensitive value trace with an `[elem]` pseudo-projection); "
+               "closure-transparent origins (captures resolved in the enclosing function) for the header map; SIBLINGS over the three redirect constructors and the eight From impls.")
 TRUSTED = ["rustc nightly MIR construction + const evaluation", "mirfacts extractor", "rules/engine.py slices, dominators",
            "serde_json::to_string", "http::response::Builder::{status,header,body}", "http::HeaderMap::{insert,extend}", "http::HeaderValue::from_str"]
 
@@ -226,47 +234,50 @@ def r4_empty_body(ctx):
               "Body::empty() wraps http_body_util::Empty::new()", be)
 
 
-def _insert_sites(ctx, f):
+def _insert_sites(ds, f):
     """(site_bb_in_f, term, owner_fn) for every HeaderMap insert/append in f or in a closure called from f."""
     out = []
     for bb, t in f.live_calls(r"http::HeaderMap::<T>::(insert|append|try_insert|try_append)$"):
         out.append((bb, t, f))
-    for g in ctx.ds.descendants(f):
+    for g in ds.descendants(f):
         ins = g.live_calls(r"http::HeaderMap::<T>::(insert|append|try_insert|try_append)$")
         if not ins:
             continue
         site = None
         for cbb, ct in f.live_calls():
             for h, node in closure_args_of_call(f, ct):
-                if h is g or g in ctx.ds.descendants(h):
+                if h is g or g in ds.descendants(h):
                     site = cbb
         for bb, t in ins:
             out.append((site, t, g))
     return out
 
 
-def _from_to_map(ds, g, op, allow):
-    """(derives from to_map(..), [other callees]) for a header name / value operand: directly (for / while-let loop over the map in the
-    function itself) or as the item of an iterator adaptor closure (`map.into_iter().try_for_each(|(k, v)| ..)`)."""
-    o = Origin(ds, g, op)
-    bad = o.bad_callees(allow + ITER_PLUMBING)
-    if o.has_call(r"^to_map::to_map$"):
-        return True, bad
-    ok = False
-    for h, it, how in element_sources(ds, g, op):
-        io = Origin(ds, h, it)
-        ok = ok or io.has_call(r"^to_map::to_map$")
-        bad += io.bad_callees(allow + ITER_PLUMBING)
-    return ok, bad
+# conversions of the serialised (String) name / value of a declared header into the typed header name / value
+NAME_CONV = [r"convert::TryFrom::try_from$", r"convert::TryInto::try_into$", r"HeaderName::from_bytes$", r"HeaderName::from_str$", r"str::FromStr::from_str$", r"str::<impl str>::parse$",
+             r"String::as_bytes$", r"String::as_str$", r"str::<impl str>::as_bytes$"]
+VALUE_CONV = [r"convert::TryFrom::try_from$", r"convert::TryInto::try_into$", r"HeaderValue::from_str$", r"HeaderValue::from_bytes$", r"str::FromStr::from_str$", r"str::<impl str>::parse$",
+              r"String::as_bytes$", r"String::as_str$", r"str::<impl str>::as_bytes$"]
+
+
+def _declared_component(ds, g, op, conv, index):
+    """Is the operand the typed conversion of the key (index 0) / value (index 1) of an element of the map returned by to_map(..)?
+    Decided on the traced value (lib_c12.trace_value): the same answer for a `for` / `while let` loop over the map, an iterator
+    adaptor closure, a conversion helper, and a collect-then-insert pipeline.  Returns (ok, [Term])."""
+    terms = trace_value(ds, g, op, convert=conv)
+    want = ["+", "0", "[elem]", str(index)]
+    return bool(terms) and all(t.is_call(r"^to_map::to_map$") and t.path == want for t in terms), terms
 
 
 def r5_header_order(ctx):
     R = ctx.rule("C12.R5", "in HttpResponseHeaders::to_result the declared headers (to_map(&structured_headers)) are inserted into the response's header map before, and never after, "
-                 "extend(other_headers); every Ok return has passed the extend; the response is the one produced from `body`", floor=9)
-    f = ctx.need_fn(ctx.ds, R, r"^<handler::HttpResponseHeaders<T, H> as handler::HttpResponse>::to_result$")
+                 "extend(other_headers); the inserted name / value are the typed conversions of the key / value of an element of that map; every Ok return has passed the extend; "
+                 "the response is the one produced from `body`", floor=9)
+    ds = ctx.dsn     # normalised view: `x.map_err(f)?`, `x.map(g)`, match and helper spellings of the conversions are one program
+    f = ctx.need_fn(ds, R, r"^<handler::HttpResponseHeaders<T, H> as handler::HttpResponse>::to_result$")
     ext = f.live_calls(r"iter::Extend::extend$|http::HeaderMap::<T>::extend$")
     ctx.check(R, "one-extend", len(ext) == 1, "extend calls: %d" % len(ext), f)
-    ins = _insert_sites(ctx, f)
+    ins = _insert_sites(ds, f)
     ctx.check(R, "declared-headers-inserted", len(ins) >= 1, "HeaderMap insert sites: %d" % len(ins), f)
     if len(ext) != 1 or not ins:
         return
@@ -286,16 +297,13 @@ def r5_header_order(ctx):
         ctx.check(R, "insert-before-extend:%d" % n, before,
                   "insert of a declared header: extend reachable afterwards=%s, insert reachable after extend=%s (a later insert would override the explicit header)" % (
                       ebb in f.reachable(sbb), sbb in after), (f, sbb))
-        NAME_OK = [r"^to_map::to_map$", r"Result::<T, E>::map_err$", r"convert::TryFrom::try_from$", r"HeaderName::from_bytes$", r"HeaderName::from_str$", r"str::FromStr::from_str$",
-                   r"String::as_bytes$", r"String::as_str$"]
-        VALUE_OK = [r"^to_map::to_map$", r"Result::<T, E>::map_err$", r"convert::TryFrom::try_from$", r"HeaderValue::from_str$", r"HeaderValue::from_bytes$", r"str::FromStr::from_str$",
-                    r"String::as_bytes$", r"String::as_str$"]
-        from_k, badk = _from_to_map(ctx.ds, g, t["args"][1], NAME_OK)
-        from_v, badv = _from_to_map(ctx.ds, g, t["args"][2], VALUE_OK)
-        ctx.check(R, "declared-name-and-value-from-to_map:%d" % n, from_k and from_v and not badk and not badv,
-                  "name and value derive from to_map(..)=%s; other callees on name %s, on value %s" % (from_k and from_v, badk, badv), (f, sbb))
+        from_k, tk = _declared_component(ds, g, t["args"][1], NAME_CONV, 0)
+        from_v, tv = _declared_component(ds, g, t["args"][2], VALUE_CONV, 1)
+        ctx.check(R, "declared-name-and-value-from-to_map:%d" % n, from_k and from_v,
+                  "inserted name is the converted key of an element of to_map(..)'s Ok map: %s (comes from %s); inserted value is that element's converted value: %s (comes from %s)" % (
+                      from_k, tk, from_v, tv), (f, sbb))
         # insert and extend write to the header map of the same response (the same or another headers_mut() borrow of it)
-        ro = Origin(ctx.ds, g, t["args"][0])
+        ro = Origin(ds, g, t["args"][0])
         iroots = set(borrow_root(h_, ht["args"][0]) for h_, c, hbb, ht in ro.callees() if re.search(r"http::Response::<T>::headers_mut$", c) and h_ is f)
         eroots = set(borrow_root(f, ht["args"][0]) for c, hbb, ht in ehm)
         same = bool(iroots) and iroots == eroots and None not in iroots and not ro.bad_callees([r"http::Response::<T>::headers_mut$"]) and not ro.unresolved
@@ -332,74 +340,137 @@ def r5_header_order(ctx):
         ctx.lost(R, "Ok(result) in to_result")
 
 
+VALID = r"HeaderValue::from_str$|HeaderValue as .*::(from_str|try_from)$"
+HEADERS_NEW = r"^handler::HttpResponseHeaders::<T, H>::new$"
+EMPTY_MAP = r"^http::HeaderMap::new$|^http::HeaderMap::<T>::new$|^<http::HeaderMap(<.*>)? as std::default::Default>::default$|^std::default::Default::default$"
+
+
+def _validation_calls(f):
+    """Calls that parse a string as an http::HeaderValue: HeaderValue::from_str / FromStr / TryFrom, or str::parse::<HeaderValue>()."""
+    return [(bb, t) for bb, t in f.live_calls() if re.search(VALID, t.get("callee") or "") or
+            (re.search(r"str::<impl str>::parse$", t.get("callee") or "") and any(norm_ty(g).endswith("HeaderValue") for g in (t.get("gargs") or [])))]
+
+
+def _empty_header_map(f, op):
+    """The operand is a fresh, empty HeaderMap (HeaderMap::new() / ::default(), possibly let-bound)."""
+    ps = sources(f, op)
+    return bool(ps) and all(p.kind() == "call" and not p.path and re.search(EMPTY_MAP, p.root[2]) and not p.root[4]["args"] and
+                            f.local_ty(p.root[1]).startswith("http::HeaderMap") for p in ps)
+
+
+def _headers_construction(f, p):
+    """An Ok payload source p that is an HttpResponseHeaders value constructed here: {bb, headers (place of the structured
+    headers handed in), extra_ok (no other header goes in)} — by HttpResponseHeaders::new(status, headers) or a struct literal."""
+    if p.path:
+        return None
+    if p.is_call(HEADERS_NEW):
+        t = p.root[4]
+        a = t["args"][1] if len(t["args"]) == 2 else None
+        if a is None or a.get("k") not in ("copy", "move"):
+            return None
+        return {"bb": p.root[3], "headers": a["pl"], "extra_ok": True, "how": "HttpResponseHeaders::new(..)"}
+    if p.kind() == "agg" and p.root[2].get("adt") == "handler::HttpResponseHeaders":
+        rv = p.root[2]
+        sh, oh = agg_field_op({"rv": rv}, "structured_headers"), agg_field_op({"rv": rv}, "other_headers")
+        bb = def_site(f, p.root[1], rv)
+        if sh is None or oh is None or bb is None or sh.get("k") not in ("copy", "move"):
+            return None
+        return {"bb": bb, "headers": sh["pl"], "extra_ok": _empty_header_map(f, oh), "how": "HttpResponseHeaders { .. }"}
+    return None
+
+
+def _is_http_error_ctor(ds, callee, depth=0):
+    """error::HttpError::for_*(..), or a crate-local helper every return value of which is such a constructor's result."""
+    if re.search(r"^error::HttpError::for_", callee or ""):
+        return True
+    g = ds.F.get(callee)
+    if g is None or depth > 2 or g.local_ty(0) != "error::HttpError":
+        return False
+    ps = sources(g, {"l": 0, "p": []})
+    return bool(ps) and all(p.kind() == "call" and not p.path and _is_http_error_ctor(ds, p.root[2], depth + 1) for p in ps)
+
+
 def r6_redirects(ctx):
-    R = ctx.rule("C12.R6", "each redirect constructor checks HeaderValue::from_str(&location); the response is constructed only on the Ok/Continue side of that check (edge dominance over the "
-                 "construction, or an Ok-only combinator closure), the failure edge returns an error; the response is HttpResponseHeaders::new(<status type with the right code>, RedirectHeaders{location})", floor=17)
+    R = ctx.rule("C12.R6", "each redirect constructor returns either Ok(HttpResponseHeaders<status type with the right code, RedirectHeaders>) whose `location` is the argument, unmodified, "
+                 "built only where HeaderValue::from_str(&location) is known to have succeeded, or Err(an HttpError built from that validation's error, only where it is known to have failed) "
+                 "— decided from the sources of the Ok / Err payloads of the return value on the normalised view; HttpResponseHeaders::new stores the given headers and no others", floor=21)
+    ds = ctx.dsn
     codes = {im["self"]: im["status"] for im in coded_impls(ctx.ds)}
     statuses = []
     for name, want in sorted(REDIRECTS.items()):
-        f = ctx.ds.one(r"^handler::%s$" % name)
+        f = ds.one(r"^handler::%s$" % name)
         if f is None:
             ctx.lost(R, "function handler::%s" % name)
             continue
-        fs = f.live_calls(r"http::HeaderValue::from_str$|HeaderValue as .*FromStr>::from_str$|HeaderValue as .*TryFrom<.*>>::try_from$")
-        ok_arg = False
-        for bb, t in fs:
+        # the validation: a HeaderValue parse of the unmodified argument
+        allv = _validation_calls(f)
+        checks = []
+        for bb, t in allv:
             sl = f.slice(t["args"][0])
-            ok_arg = sl.params() == [1] and only_plumbing(sl, [r"String::as_str$", r"String::as_bytes$"])
-        ctx.check(R, "%s:validates-location" % name, len(fs) >= 1 and ok_arg, "HeaderValue validation calls: %d, on the unmodified location argument: %s" % (len(fs), ok_arg), f)
-        # the response is built at the call(s) of HttpResponseHeaders::new — in the constructor itself (`Ok(new(..))` after `?` / inside a
-        # match arm) or in a closure given to an Ok-only combinator of the validation result (`check(&location).map(|()| new(..))`)
-        VALID = r"HeaderValue::from_str$|HeaderValue as .*::(from_str|try_from)$"
-        sites = [(g, bb, t) for g in [f] + ctx.ds.descendants(f) for bb, t in g.live_calls(r"^handler::HttpResponseHeaders::<T, H>::new$")]
-        if not sites:
-            ctx.lost(R, "HttpResponseHeaders::new(..) in %s" % name)
+            if sl.params() == [1] and only_plumbing(sl, [r"String::as_str$", r"String::as_bytes$"]):
+                checks.append(bb)
+        ctx.check(R, "%s:validates-location" % name, len(checks) >= 1, "HeaderValue validation calls: %d, on the unmodified location argument: %d" % (len(allv), len(checks)), f)
+        oc = CheckOutcome(f, checks)
+        # the status is a type-level fact: T of the HttpResponseHeaders<T, RedirectHeaders> the constructor returns (to_result sends T::STATUS_CODE, C12.R2/R5)
+        m = re.match(r"^std::result::Result<handler::HttpResponseHeaders<(.+), handler::RedirectHeaders>, error::HttpError>$", f.local_ty(0) or "")
+        st_ty = norm_ty(m.group(1)) if m else None
+        code = codes.get(st_ty)
+        statuses.append(st_ty)
+        # success: every source of the Ok payload is a response constructed here, where the validation has passed, around the argument
+        oks = result_payload_sources(f, 0, "Ok")
+        if not oks:
+            ctx.lost(R, "a source of the Ok payload returned by %s" % name)
             continue
-        literal = [g.id for g in [f] + ctx.ds.descendants(f) for b, i, st_ in g.aggregates(r"^handler::HttpResponseHeaders$")]
-        edges = accept_edges(f, VALID)
-        for g, bb, nt in sites:
-            if g is f:
-                dom = [e for e in edges if f.edge_dominates(e[0], e[1], bb)]
-                guarded = bool(dom)
-                how = "dominated by the Ok edge of the location check (%d candidate switches)" % len(edges)
-                leak = [e for e in dom if any(bb in f.reachable(o) for o in e[2])]
-                refused = bool(dom) and not leak
-                rhow = "the failure edge of the check does not reach the construction"
-            else:
-                # which call of f receives the closure, and is it an Ok-only combinator on the validation result?
-                takers = [(cbb, ct) for cbb, ct in f.live_calls() for h, node in closure_args_of_call(f, ct) if h is g]
-                guarded = len(takers) == 1 and bool(re.search(r"Result::<T, E>::(map|and_then)$", takers[0][1].get("callee") or "")) and \
-                    f.slice(takers[0][1]["args"][0]).has_call(VALID) and \
-                    not callee_allow(f.slice(takers[0][1]["args"][0]), PLUMBING + [VALID, r"Result::<T, E>::(map_err|map|and_then)$", r"^handler::http_redirect_error$", r"^error::HttpError::for_", r"String::as_str$"])
-                how = "built inside the closure of %s applied to the result of the location check (runs only for Ok)" % ([ct.get("callee") for _, ct in takers] or "?")
-                refused = guarded
-                rhow = "Result::map / and_then hand an Err on untouched"
-            ctx.check(R, "%s:ok-dominated-by-valid-location" % name, guarded and not literal,
-                      "the response %s %s%s" % ("is" if guarded else "is NOT", how, "; HttpResponseHeaders also built by struct literal in %s" % literal if literal else ""), (g, bb))
-            ctx.check(R, "%s:invalid-location-is-refused" % name, refused, "%s: %s" % (rhow, refused), (g, bb))
-            ga = [norm_ty(x) for x in (nt.get("gargs") or [])]
-            st_ty = ga[0] if ga else None
-            code = codes.get(st_ty)
-            ho = Origin(ctx.ds, g, nt["args"][1])
-            rh = [a for h_, sl_ in ho.parts for a in sl_.atoms if a[0] == "agg" and a[1] == "handler::RedirectHeaders"]
-            loc_ok = bool(rh) and ho.params_of(f) == [1] and not ho.bad_callees() and not ho.computed() and not ho.unresolved and not ho.item_params
-            statuses.append(st_ty)
-            ctx.check(R, "%s:status-and-location" % name, code == want and loc_ok,
-                      "status type %s has STATUS_CODE %s (want %d); headers = RedirectHeaders{location: the argument, unmodified}=%s" % (st_ty, code, want, loc_ok), (g, bb))
-        # every explicit Ok(..) of the constructor carries a response built at one of those sites
-        for b, stt in ret_ok_sites(f):
-            sl = f.slice(stt["rv"]["ops"][0])
-            if not sl.has_call(r"^handler::HttpResponseHeaders::<T, H>::new$"):
-                ctx.check(R, "%s:ok-carries-the-built-response" % name, False, "an Ok(..) of the constructor does not carry HttpResponseHeaders::new(..)", (f, b))
-        # failure is an HttpError built from the validation error (map_err closure / explicit Err); closures on the way return only the built response
-        ALLOW_RET = [VALID, r"Result::<T, E>::(map_err|map|and_then)$", r"^handler::HttpResponseHeaders::<T, H>::new$", r"^handler::http_redirect_error$", r"^error::HttpError::for_", r"String::as_str$"]
-        errsl = f.slice({"l": 0, "p": []})
-        badret = [x[0] for x in callee_allow(errsl, PLUMBING + ALLOW_RET)]
-        for g in set(g for g, _, _ in sites if g is not f):
-            badret += [x[0] for x in callee_allow(g.slice({"l": 0, "p": []}), PLUMBING + ALLOW_RET)]
-        ctx.check(R, "%s:returns-only-validated-or-error" % name, not badret,
-                  "values returned derive only from the validation, the constructor and an HttpError constructor: %s (others: %s)" % (errsl.callee_names(), badret), f)
+        foreign = []
+        for p in oks:
+            c = _headers_construction(f, p)
+            if c is None:
+                foreign.append(repr(p))
+                continue
+            bb = c["bb"]
+            passed = oc.passed(bb)
+            ctx.check(R, "%s:ok-dominated-by-valid-location" % name, passed,
+                      "the response (%s) %s built only where the validation of the location is known to have returned Ok (%d Ok edges, %d is_ok/is_err tests)" % (
+                          c["how"], "is" if passed else "is NOT", len(oc.ok), len(oc.ok_atoms) + len(oc.err_atoms)), (f, bb))
+            leak = oc.failure_reaches(bb)
+            ctx.check(R, "%s:invalid-location-is-refused" % name, passed and not leak, "the failure side of the validation does not reach the construction: %s" % (passed and not leak), (f, bb))
+            lp = field_place(f, c["headers"], "handler::RedirectHeaders", "location")
+            locs = sources(f, lp, transparent=VALUE_PRESERVING) if lp is not None else []
+            loc_ok = bool(locs) and all(q.kind() == "param" and q.root[1] == 1 and not q.path for q in locs)
+            ctx.check(R, "%s:status-and-location" % name, code == want and loc_ok and c["extra_ok"],
+                      "status type %s has STATUS_CODE %s (want %d); RedirectHeaders.location comes from %s (want the argument, unmodified); no other header: %s" % (
+                          st_ty, code, want, locs, c["extra_ok"]), (f, bb))
+        # failure: every source of the Err payload is an HttpError constructor called where the validation is known to have failed, with that validation's error
+        errs = result_payload_sources(f, 0, "Err")
+        bad_err = []
+        for p in errs:
+            if p.kind() != "call" or p.path or not _is_http_error_ctor(ds, p.root[2]):
+                bad_err.append("%r is not an HttpError constructor" % p)
+                continue
+            bb, t = p.root[3], p.root[4]
+            if not oc.failed(bb):
+                bad_err.append("%s is called where the validation is not known to have failed" % p.root[2])
+            if not any(cbb in checks for a in t["args"] for c_, cbb, ct in f.slice(a).callees):
+                bad_err.append("%s is not given the validation's error" % p.root[2])
+        ctx.check(R, "%s:error-from-the-failed-validation" % name, bool(errs) and not bad_err,
+                  "sources of the Err payload: %s%s" % (errs, "; " + "; ".join(bad_err) if bad_err else " — HttpError constructors on the failure side of the validation, given its error"), f)
+        ctx.check(R, "%s:returns-only-validated-or-error" % name, not foreign and bool(errs),
+                  "sources of the Ok payload: %s%s" % (oks, "; not a response constructed here: %s" % foreign if foreign else ""), f)
     ctx.check(R, "three-distinct-status-types", len(set(statuses)) == 3, "status types used by the three constructors: %s" % sorted(set(s or "?" for s in statuses)), nontrivial=False)
+    # HttpResponseHeaders::new(body, headers) keeps the given headers as the declared ones and starts with no explicit header
+    nf = ds.one(HEADERS_NEW.replace("<T, H>", "<T, H>"))
+    if nf is None:
+        ctx.lost(R, "function handler::HttpResponseHeaders::new")
+    else:
+        vals = sources(nf, {"l": 0, "p": []})
+        good = bool(vals)
+        for p in vals:
+            rv = p.root[2] if p.kind() == "agg" and not p.path else None
+            sh = agg_field_op({"rv": rv}, "structured_headers") if rv and rv.get("adt") == "handler::HttpResponseHeaders" else None
+            oh = agg_field_op({"rv": rv}, "other_headers") if sh is not None else None
+            shs = sources(nf, sh, transparent=[]) if sh is not None else []
+            good = good and sh is not None and oh is not None and bool(shs) and all(q.kind() == "param" and q.root[1] == 2 and not q.path for q in shs) and _empty_header_map(nf, oh)
+        ctx.check(R, "new-stores-the-given-headers-only", good, "HttpResponseHeaders::new returns Self { structured_headers: the `headers` argument, other_headers: an empty HeaderMap, .. }: %s" % good, nf)
     # the header is named `location`: RedirectHeaders has exactly that one field and its Serialize impl writes that key
     a = ctx.ds.adts.get("handler::RedirectHeaders")
     if not a:
@@ -419,7 +490,8 @@ def r6_redirects(ctx):
 
 def r7_to_map(ctx):
     R = ctx.rule("C12.R7", "to_map stores each declared header under its field name with the string value unmodified", floor=7)
-    sf = ctx.need_fn(ctx.ds, R, r"^<to_map::MapSerializeStruct as .*SerializeStruct>::serialize_field$")
+    ds = ctx.dsn     # normalised view: `let v = x?; insert(k, v); Ok(())` and `x.map(|v| { insert(k, v); })` are one program
+    sf = ctx.need_fn(ds, R, r"^<to_map::MapSerializeStruct as .*SerializeStruct>::serialize_field$")
     ins = sf.live_calls(r"BTreeMap::<K, V, A>::insert$")
     ctx.check(R, "one-insert", len(ins) == 1, "BTreeMap::insert calls in serialize_field: %d" % len(ins), sf)
     for bb, t in ins:
@@ -436,19 +508,19 @@ def r7_to_map(ctx):
                   "map value = value.serialize(StringSerializer)=%s; callees %s" % (okv, vs.callee_names()), (sf, bb))
         rs = sf.slice(t["args"][0])
         ctx.check(R, "insert-into-output", rs.params() == [1] and rs.reads_field("output") and not rs.callees, "receiver is self.output", (sf, bb))
-    ss = ctx.need_fn(ctx.ds, R, r"^<&mut to_map::StringSerializer as .*Serializer>::serialize_str$")
+    ss = ctx.need_fn(ds, R, r"^<&mut to_map::StringSerializer as .*Serializer>::serialize_str$")
     oks = ret_ok_sites(ss)
     for b, stt in oks:
         sl = ss.slice(stt["rv"]["ops"][0])
         ctx.check(R, "string-value-unmodified", sl.params() == [2] and only_plumbing(sl, TO_STRING), "serialize_str returns Ok(v.to_string()): params %s via %s" % (sl.params(), sl.callee_names()), (ss, b))
     if not oks:
         ctx.lost(R, "Ok(..) in StringSerializer::serialize_str")
-    en = ctx.need_fn(ctx.ds, R, r"^<to_map::MapSerializeStruct as .*SerializeStruct>::end$")
+    en = ctx.need_fn(ds, R, r"^<to_map::MapSerializeStruct as .*SerializeStruct>::end$")
     for b, stt in ret_ok_sites(en):
         sl = en.slice(stt["rv"]["ops"][0])
         ctx.check(R, "end-returns-output", sl.params() == [1] and sl.reads_field("output") and not sl.callees, "end() returns Ok(self.output)", (en, b))
-    st = ctx.need_fn(ctx.ds, R, r"^<&mut to_map::MapSerializer<Input> as .*Serializer>::serialize_struct$")
-    tm = ctx.need_fn(ctx.ds, R, r"^to_map::to_map$")
+    st = ctx.need_fn(ds, R, r"^<&mut to_map::MapSerializer<Input> as .*Serializer>::serialize_struct$")
+    tm = ctx.need_fn(ds, R, r"^to_map::to_map$")
     rs = tm.slice({"l": 0, "p": []})
     sc = rs.calls(r"Serialize::serialize$")
     ok = False
@@ -548,4 +620,33 @@ SELFTEST = [
     {"name": "json-to_vec", "kind": "benign",
      "edits": [(H, "        let serialized = serde_json::to_string(&self)", "        let serialized = serde_json::to_vec(&self)")],
      "why": "behaviour-preserving: same JSON bytes via to_vec"},
+    {"name": "found-validation-helper-match", "kind": "benign",
+     "edits": [(H, ") -> Result<HttpResponseFound, HttpError> {\n    let _ = http::HeaderValue::from_str(&location)\n        .map_err(|e| http_redirect_error(e, &location))?;\n    Ok(HttpResponseHeaders::new(\n        HttpResponseFoundStatus,\n        RedirectHeaders { location },\n    ))",
+                ") -> Result<HttpResponseFound, HttpError> {\n    let headers = checked_redirect_headers(location)?;\n    Ok(HttpResponseHeaders::new(HttpResponseFoundStatus, headers))\n}\n\nfn checked_redirect_headers(location: String) -> Result<RedirectHeaders, HttpError> {\n    match http::HeaderValue::from_str(&location) {\n        Ok(_) => Ok(RedirectHeaders { location }),\n        Err(error) => Err(HttpError::for_internal_error(format!(\n            \"error encoding redirect URL {:?}: {:#}\",\n            location, error\n        ))),\n    }")],
+     "why": "behaviour-preserving: validation + error construction + RedirectHeaders moved into a helper with an explicit match; the constructor's Ok payload still has the argument as "
+            "Location and is built only on the Ok side of the check, its Err payload is the HttpError built from the check's error (format! now inlined into the constructor)"},
+    {"name": "found-is-err-guard", "kind": "benign",
+     "edits": [(H, ") -> Result<HttpResponseFound, HttpError> {\n    let _ = http::HeaderValue::from_str(&location)\n        .map_err(|e| http_redirect_error(e, &location))?;\n",
+                ") -> Result<HttpResponseFound, HttpError> {\n    let checked = http::HeaderValue::from_str(&location);\n    if checked.is_err() {\n        return Err(http_redirect_error(checked.unwrap_err(), &location));\n    }\n")],
+     "why": "behaviour-preserving: the outcome of the validation tested with is_err() (path-sensitive bool fact) instead of a match on the Result"},
+    {"name": "found-guard-inverted", "kind": "mutant", "expect": ["C12.R6"],
+     "edits": [(H, ") -> Result<HttpResponseFound, HttpError> {\n    let _ = http::HeaderValue::from_str(&location)\n        .map_err(|e| http_redirect_error(e, &location))?;\n",
+                ") -> Result<HttpResponseFound, HttpError> {\n    if let Ok(_) = http::HeaderValue::from_str(&location) {\n        return Err(HttpError::for_internal_error(location));\n    }\n")],
+     "why": "the redirect is built exactly when the Location is NOT a legal header value, and legal ones are refused"},
+    {"name": "found-error-on-valid-path", "kind": "mutant", "expect": ["C12.R6"],
+     "edits": [(H, "    Ok(HttpResponseHeaders::new(\n        HttpResponseFoundStatus,\n        RedirectHeaders { location },\n    ))",
+                "    if location.len() > 2048 {\n        return Ok(HttpResponseHeaders::new(HttpResponseFoundStatus, RedirectHeaders { location: String::from(\"/\") }));\n    }\n    Ok(HttpResponseHeaders::new(\n        HttpResponseFoundStatus,\n        RedirectHeaders { location },\n    ))")],
+     "why": "a second Ok source whose Location is not the argument"},
+    {"name": "to_result-collect-then-insert", "kind": "benign",
+     "edits": [(H, "        for (key, value) in header_map {\n            let key = http::header::HeaderName::try_from(key)\n                .map_err(|e| HttpError::for_internal_error(e.to_string()))?;\n            let value = http::header::HeaderValue::try_from(value)\n                .map_err(|e| HttpError::for_internal_error(e.to_string()))?;\n            headers.insert(key, value);\n        }\n",
+                "        let declared = header_map\n            .into_iter()\n            .map(|(key, value)| {\n                let name = http::header::HeaderName::try_from(key)\n                    .map_err(|e| HttpError::for_internal_error(e.to_string()))?;\n                http::header::HeaderValue::try_from(value)\n                    .map_err(|e| HttpError::for_internal_error(e.to_string()))\n                    .map(|value| (name, value))\n            })\n            .collect::<Result<Vec<_>, HttpError>>()?;\n        declared.into_iter().for_each(|(name, value)| {\n            headers.insert(name, value);\n        });\n")],
+     "why": "behaviour-preserving: convert all declared headers first (map + collect into Result<Vec>), then insert them with for_each; name / value are traced through the "
+            "pipeline to the key / value of an element of to_map(..)"},
+    {"name": "to_result-swaps-name-and-value", "kind": "mutant", "expect": ["C12.R5"],
+     "edits": [(H, "            let key = http::header::HeaderName::try_from(key)\n", "            let (key, value) = (value, key);\n            let key = http::header::HeaderName::try_from(key)\n")],
+     "why": "the declared header is sent with name and value exchanged"},
+    {"name": "serialize_field-map-closure", "kind": "benign",
+     "edits": [("dropshot/src/to_map.rs", "        let mut serializer = StringSerializer;\n        let value = value.serialize(&mut serializer)?;\n        self.output.insert(key.to_string(), value);\n        Ok(())",
+                "        value.serialize(&mut StringSerializer).map(|text| {\n            self.output.insert(String::from(key), text);\n        })")],
+     "why": "behaviour-preserving: `let v = x?; insert(k, v); Ok(())` written as x.map(|v| { insert(k, v); }) — one program on the normalised view"},
 ]
